@@ -284,8 +284,9 @@ def chunks(items, n):
     return [items[i:i + size] for i in range(0, len(items), size)]
 
 
-class CaseTimeout(Exception):
-    """A single case did not terminate (e.g. the library walks a cyclic parent chain)."""
+class CaseTimeout(BaseException):
+    """A single case did not terminate (e.g. the library walks a cyclic parent chain).  Not an Exception: neither the
+    library's nor the harness's `except Exception` may swallow it."""
 
 
 class time_limit(object):
@@ -319,11 +320,11 @@ def guard(t, pid, case, fn, *args, **kw):
     """Run one case; an unexpected exception while the real code (or the comparison of its junk result) is
     evaluated is a finding about the code under test, not a harness crash."""
     try:
-        with time_limit(kw.pop("_limit", 20)):
+        with time_limit(kw.pop("_limit", 6)):
             return fn(*args, **kw)
     except HarnessError:
         raise
-    except Exception as exc:  # noqa
+    except (Exception, CaseTimeout) as exc:  # noqa
         tb = traceback.format_exc().strip().splitlines()
         c = dict(case)
         c["unexpected_exception"] = tb[-6:]
